@@ -270,6 +270,44 @@ class Interp:
                 want = {"is_err": 1, "is_ok": 0, "is_some": 1, "is_none": 0}[short.rsplit("::", 1)[1]]
                 return ("b", a[2] == want)
             return TOP
+        if short.startswith("std::option::Option") and short.endswith(("::ok_or_else", "::ok_or")) and args and \
+                args[0] not in (TOP, BOT) and args[0][0] == "enum":
+            a = args[0]
+            if a[3] == "Some":
+                return ("enum", "std::result::Result", 0, "Ok", (a[4][0] if a[4] else TOP,))
+            return ("enum", "std::result::Result", 1, "Err", (TOP,))
+        if short.startswith("std::result::Result") and short.endswith("::ok") and args and args[0] not in (TOP, BOT) and args[0][0] == "enum":
+            a = args[0]
+            if a[3] == "Ok":
+                return ("enum", "std::option::Option", 1, "Some", (a[4][0] if a[4] else TOP,))
+            return ("enum", "std::option::Option", 0, "None", ())
+        # Result/Option combinators applied to a value of known variant: run the closure on the payload
+        if (short.startswith("std::result::Result") or short.startswith("std::option::Option")) and len(args) == 2 and \
+                short.endswith(("::map", "::and_then", "::map_err", "::or_else")) and args[0] not in (TOP, BOT) and args[0][0] == "enum":
+            a = args[0]
+            good = a[3] in ("Ok", "Some")
+            on_good = short.endswith(("::map", "::and_then"))
+            if good != on_good:
+                return a                    # the closure is not applied: the value passes through
+            ca = t["args"][1]
+            cbody = None
+            if ca[0] != "k":
+                cty = body.local_ty(ca[1][0])
+                for cb_ in self.facts.closures_of(body.root or body.id):
+                    if ("closure@%s:%d:" % (cb_.file, cb_.line)) in cty:
+                        cbody = cb_
+            if cbody is not None and self.depth < 4:
+                sub = Interp(self.facts, self.variant, self.subject_calls, self.depth + 1, self.memo, self.call_models,
+                             self.subject_adt, self.site_values)
+                sub.forced = self.forced
+                payload = a[4][0] if a[4] else TOP
+                r = sub.run(cbody, {2: payload}).ret
+                if short.endswith(("::and_then", "::or_else")):
+                    return r
+                if short.endswith("::map"):
+                    return ("enum", a[1], a[2], a[3], (r,))
+                return ("enum", a[1], a[2], a[3], (r,))
+            return TOP
         # Option combinators preserve None (`key.as_ref().and_then(|k| table.get(k)).cloned()`)
         if short.startswith("std::option::Option") and short.endswith(("::and_then", "::map", "::cloned", "::copied", "::filter",
                                                                         "::as_deref", "::inspect", "::flatten")) and args:
@@ -311,6 +349,10 @@ class Interp:
         # small crate-local predicate helpers (`fn must_keep(..) -> bool`): interpret them too, so that a guard moved into a
         # helper is seen exactly like the inline guard (forced call sites inside the helper keep working: same site table)
         if cb is not None and self.depth < 3 and cb.kind != "closure" and cb.local_ty(0) == "bool" and cb.nblocks() <= 60:
+            return self.run_callee(cb, args)
+        # small same-file helpers handed a value whose variant is known (`state.find_duplicate(&None)`)
+        if cb is not None and self.depth < 3 and cb.kind != "closure" and cb.nblocks() <= 80 and cb.file == body.file and \
+                any(a not in (TOP, BOT, SUBJ) and a[0] == "enum" for a in args):
             return self.run_callee(cb, args)
         return TOP
 
